@@ -815,6 +815,10 @@ class EvolvableAlgorithm(ABC, metaclass=RegistryMeta):
             elif state_dict:
                 loaded_module.load_state_dict(state_dict)
 
+        # Hooks that derive networks from the weights of others (e.g. DQN's target network,
+        # which has no state dict of its own) must see the loaded weights
+        self.mutation_hook()
+
         optimizer_names = network_info["optimizer_names"]
         for name in optimizer_names:
             opt_dict = {
@@ -970,6 +974,10 @@ class EvolvableAlgorithm(ABC, metaclass=RegistryMeta):
                         loaded_mod.load_state_dict(state)
             elif state_dict:
                 loaded_module.load_state_dict(state_dict)
+
+        # Hooks that derive networks from the weights of others (e.g. DQN's target network,
+        # which has no state dict of its own) must see the loaded weights
+        self.mutation_hook()
 
         # Reconstruct optimizers in algorithm
         optimizer_names = network_info["optimizer_names"]
